@@ -41,6 +41,12 @@ def money(lo=1, hi=200000):
     return st.integers(lo, hi).map(lambda n: D(n).scaleb(-2))
 
 
+def odd_money():
+    """Amounts with more (or fewer) fractional digits than the ledger's usual two."""
+    return st.one_of(st.integers(1, 99999).map(lambda n: D(n).scaleb(-4)), st.integers(1, 9999).map(lambda n: D(n).scaleb(-3)),
+                     st.integers(1, 500).map(D), st.integers(1, 999).map(lambda n: D(n).scaleb(-1)))
+
+
 @st.composite
 def ledgers(draw, max_txns=10, with_pad=True, with_extras=True, min_txns=1, many_extras=False):
     accounts = list(BASE_ACCOUNTS)
@@ -78,7 +84,7 @@ def ledgers(draw, max_txns=10, with_pad=True, with_extras=True, min_txns=1, many
         usable = [a for a in accounts if a not in closed and a != 'Assets:Cash' or a == 'Assets:Cash' and False]
         if kind == 'simple':
             cur = draw(st.sampled_from(CASH))
-            amt = draw(money())
+            amt = draw(money()) if draw(st.integers(0, 4)) else draw(odd_money())
             a, b = draw(st.sampled_from(usable)), draw(st.sampled_from(usable))
             postings = [{'account': a, 'units': (amt, cur)}, {'account': b, 'units': (-amt, cur)}]
         elif kind == 'multi':
@@ -97,6 +103,10 @@ def ledgers(draw, max_txns=10, with_pad=True, with_extras=True, min_txns=1, many
             cost = draw(money(100, 50000))
             ccur = draw(st.sampled_from(CASH))
             label = draw(st.sampled_from([None, None, f'lot{i}']))
+            # a lot spec without label also matches labelled lots: keep one label per (account, commodity, cost, date)
+            for other in lots:
+                if other[:5] == (acct, stock, cost, ccur, date):
+                    label = other[5]
             postings = [{'account': acct, 'units': (units, stock), 'cost': (cost, ccur, None, label)},
                         {'account': 'Assets:Bank:Checking', 'units': (-units * cost, ccur)}]
             key = (acct, stock, cost, ccur, date, label)
